@@ -109,7 +109,7 @@ def german_accounts():
     for m in c14.c07.lib_methods():
         if m in ("16", "02", "25", "88"):
             continue
-        menu = c14.method_menu(m, limit=1500, max_entries=6)
+        menu = c14.method_menu(m, limit=1500, max_entries=12)
         out["all_methods"][m] = {f"{rc}{'a' if acc else 'r'}-{ft}": a for (rc, acc, ft), a in menu.items()}
     # a bank code whose first registry entry is not the primary one (several entries, names differ)
     for (cc, code), es in sorted(lookup.by_key().items()):
@@ -194,6 +194,11 @@ def build_alphabet(ga: dict, tier: str = "thorough"):
     add("iban-bic", lambda: I(VALID).bic, True)
     add("iban-bank", lambda: I(VALID).bank, True)
     add("iban-bank_name", lambda: I("PL61109010140000071219812874").bank_name)
+    add("iban-pl-bic-then-fields", lambda: (I("PL61109010140000071219812874").bic,
+                                            I("PL61109010140000071219812874").bank_code,
+                                            I("SI56263300012039086").bic, I("SI56263300012039086").bank_code), True)
+    for cc in sorted(lookup.by_country()):
+        add(f"random-{cc}", (lambda cc=cc: I.random(cc, random=random.Random(31))), group="xrandom")
     np = ga.get("nonprimary_first")
     if np:
         text = "DE" + ri.check_digits("DE", np + "0000000000") + np + "0000000000"
